@@ -522,7 +522,7 @@ class Explorer:
     """Runs a proof function over all its paths."""
 
     def __init__(self, branch_timeout_ms=5000, query_timeout_ms=10000,
-                 max_paths=20000, use_cvc5=True):
+                 max_paths=60000, use_cvc5=True):
         self.branch_timeout_ms = branch_timeout_ms
         self.query_timeout_ms = query_timeout_ms
         self.max_paths = max_paths
